@@ -250,6 +250,16 @@ Theorem c06_unsafe_import :
   forall text, oct_import_warns text = true <-> starts_with_unsafe text.
 Proof. exact unsafe_import_iff. Qed.
 
+(* every route by which key text becomes an oct key - OctKey.import_key,
+   JWKRegistry.import_key(text, "oct"), the raw str / bytes key argument of an entry point,
+   a callable returning str / bytes - gives the key made of these octets and raises the
+   warning exactly for PEM / SSH-formatted text *)
+Theorem c06_unsafe_import_all_routes :
+  forall r text,
+    fst (import_text r text) = oct_of_text text /\
+    (snd (import_text r text) = true <-> starts_with_unsafe text).
+Proof. exact unsafe_import_all_routes. Qed.
+
 (* leading whitespace is looked behind; recorded gaps: a byte-order mark and DER are
    not "PEM/SSH-formatted key text" and stay silent *)
 Theorem c06_unsafe_prefix_gap :
@@ -394,6 +404,7 @@ Print Assumptions c06_table_enc_cek.
 Print Assumptions c06_table_operations.
 Print Assumptions c06_table_curves.
 Print Assumptions c06_unsafe_import.
+Print Assumptions c06_unsafe_import_all_routes.
 Print Assumptions c06_unsafe_prefix_gap.
 Print Assumptions c06_table_key_params.
 Print Assumptions c06_key_ops_membership.
